@@ -1,4 +1,24 @@
-(* placeholder until the proofs are integrated *)
-From DictIO Require Import Chars Str Value Scalar.
-Theorem C10_placeholder : True. Proof. exact I. Qed.
-Print Assumptions C10_placeholder.
+(* C10  OpenFOAM output keeps content, drops private keys, carries the Foam header. *)
+
+From Coq Require Import NArith ZArith List Bool.
+From DictIO Require Import Chars Str Value Scalar KeyPath SDict Layout Lexer TokParser TreeSpec NativeSpec QuoteProofs.
+Import ListNotations.
+
+(* C10: Foam output *)
+Theorem C10_no_underscore_keys : forall t, has_us_key (strip_us t) = false.
+Proof. exact strip_us_removes_all. Qed.
+Print Assumptions C10_no_underscore_keys.
+
+Theorem C10_strip_keeps_rest : forall t, has_us_key t = false -> strip_us t = t.
+Proof. exact strip_us_identity. Qed.
+Print Assumptions C10_strip_keeps_rest.
+
+Theorem C10_no_single_quote : forall s, has_char c_sq s = false -> has_char c_sq (foam_format_string s) = false.
+Proof. exact foam_no_single_quote. Qed.
+Print Assumptions C10_no_single_quote.
+
+Theorem C10_foam_choice : forall s, has_char c_dollar s = false -> has_char c_dq s = false ->
+  (foam_format_string s = dq s) \/
+  (foam_format_string s = s /\ nonempty s = true /\ forallb (fun c => negb (is_struct_char c || is_quote c)) s = true).
+Proof. exact foam_format_choice. Qed.
+Print Assumptions C10_foam_choice.
